@@ -405,3 +405,72 @@ Proof.
   unfold all_obligations_of. rewrite forallb_app. intros H. apply andb_prop in H.
   apply obligations_setters_ok. tauto.
 Qed.
+
+(** ** C13 per program: what the translated builder steps *do*
+
+    A step body of shape [ShStep calls] is [Partial(self.0.m1(a1).m2(a2)...)]: it calls the listed methods on the
+    inner bitfield, in order, with [value] (scalar) or [value[i]] (array).  [shape_hops] turns that into operations of
+    History.v by looking the method names up among the declaration's [with_] names.  When the run's obligation
+    [builder_chain] holds, these are exactly [builder_hops] of the model chain — so the real builder is the fold of
+    the real [with_] bodies (theorem [C13_builder_is_with_chain]) and, through the setter obligations, of [spec_set]. *)
+
+Fixpoint field_by_with_name (name : string) (fs : list field) : option field :=
+  match fs with
+  | [] => None
+  | f :: fs' => if f_set f && String.eqb (with_name f) name then Some f else field_by_with_name name fs'
+  end.
+
+Fixpoint calls_hops (d : decl) (calls : list (string * option N)) (vs : list N) : option (list hop) :=
+  match calls, vs with
+  | [], [] => Some []
+  | (name, idx) :: calls', v :: vs' =>
+      match field_by_with_name name (d_fields d), calls_hops d calls' vs' with
+      | Some f, Some hs => Some (mkH HWith f (match idx with Some i => i | None => 0 end) v :: hs)
+      | _, _ => None
+      end
+  | _, _ => None
+  end.
+
+Definition shape_hops (d : decl) (sh : shape) (vs : list N) : option (list hop) :=
+  match sh with ShStep calls => calls_hops d calls vs | _ => None end.
+
+(** distinct writable fields have distinct [with_] names (otherwise rustc rejects the duplicate method) *)
+Definition with_names_distinct (d : decl) : Prop :=
+  NoDup (map with_name (filter f_set (d_fields d))).
+
+Lemma field_by_with_name_found fs f :
+  NoDup (map with_name (filter f_set fs)) -> In f fs -> f_set f = true ->
+  field_by_with_name (with_name f) fs = Some f.
+Proof.
+  induction fs as [|g fs IH]; intros ND Hin Hs; [destruct Hin|]. cbn [field_by_with_name filter map] in *.
+  destruct Hin as [->|Hin].
+  - now rewrite Hs, String.eqb_refl.
+  - destruct (f_set g) eqn:Eg; cbn [andb].
+    + cbn [map] in ND. apply NoDup_cons_iff in ND. destruct ND as [Hn ND].
+      destruct (String.eqb_spec (with_name g) (with_name f)) as [E|_]; [|now apply IH].
+      exfalso. apply Hn. rewrite E. apply in_map. apply filter_In. auto.
+    + now apply IH.
+Qed.
+
+Lemma step_calls_hops d f vs :
+  with_names_distinct d -> In f (d_fields d) -> f_set f = true ->
+  List.length vs = N.to_nat (count f) ->
+  calls_hops d (step_calls f) vs
+  = Some (map (fun iv => mkH HWith f (N.of_nat (fst iv)) (snd iv)) (combine (seq 0 (N.to_nat (count f))) vs)).
+Proof.
+  intros ND Hin Hs Hlen. unfold step_calls, count in *. destruct (f_count f) as [k|].
+  - (* array: calls (with_f, Some i) for i = 0 .. k-1 *)
+    generalize dependent vs. generalize 0%nat as st. induction (N.to_nat k) as [|m IH]; intros st vs Hlen.
+    + destruct vs; [reflexivity|discriminate].
+    + destruct vs as [|v vs]; [discriminate|]. cbn [seq map calls_hops combine fst snd].
+      rewrite (field_by_with_name_found _ f ND Hin Hs). rewrite (IH (S st) vs) by (cbn in Hlen; lia). reflexivity.
+  - destruct vs as [|v [|v' vs]]; try discriminate. cbn [calls_hops seq combine map fst snd N.to_nat Pos.to_nat Pos.iter_op].
+    rewrite (field_by_with_name_found _ f ND Hin Hs). reflexivity.
+Qed.
+
+(** the step the model expects for field [f] performs exactly [step_hops] *)
+Theorem expected_step_semantics d s vs :
+  with_names_distinct d -> In (bs_field s) (d_fields d) -> f_set (bs_field s) = true ->
+  List.length vs = N.to_nat (count (bs_field s)) ->
+  shape_hops d (xs_shape (expected_step s)) vs = Some (step_hops s vs).
+Proof. intros ND Hin Hs Hl. cbn [expected_step xs_shape shape_hops]. now apply step_calls_hops. Qed.
